@@ -155,6 +155,14 @@ func (vc *VC) execCall(fr *frame, n *Node, x *ssa.Call) {
 			vc.bindResult(n, x, sig, outs)
 			return
 		}
+		if fn := closureOrigin(c.Value); fn != nil {
+			// a local closure reached through a captured variable that holds it (stored exactly once): the closure is
+			// known, its bindings are not tracked here — effects by its mod-set, results unconstrained
+			vc.havocMods(n, vc.prog.ModSetOf(fn))
+			vc.enc.notes[fmt.Sprintf("closure %s called through a captured variable: effects by mod-set, result unconstrained", fn.Name())] = true
+			vc.bindResult(n, x, sig, vc.freshResults(n, x.Name(), sig))
+			return
+		}
 		ms := &ModSet{all: true}
 		vc.havocMods(n, ms)
 		vc.bindResult(n, x, sig, vc.freshResults(n, x.Name(), sig))
